@@ -9,6 +9,7 @@ use crate::neutral::Kind;
 use crate::prng::Prng;
 use crate::refmodel::pkt::{ety, Start};
 
+pub mod corpus;
 pub mod headers;
 
 #[derive(Clone, Debug)]
